@@ -12,7 +12,8 @@ Decided here:
           the key (C04-R1), (d) the hit is intersected with the current unit set only (no other modification);
   C10-R3  plain = extended with an empty context: the plain and the extended batch drivers are the same pipeline up to
           parser flavour, validate_and_divide_wild_cards and extend_context_with_wild_cards (whose loops run over the
-          empty maps).
+          empty maps); with several formulae the maps handed to extend_context_with_wild_cards accumulate the validated
+          context of every formula (shared with C02-R4).
 Not decided: equality of results under substitution (value level); relies on C03 (results are closed and bounded)."""
 import cacheproto
 import evalnode as E
@@ -123,7 +124,15 @@ def run(prog, rep):
             outside.append(it)
         rep.check(not outside, "C10-R3", "extend/only-loops", f"{f.file}:{f.line}", "every effect on the context is per element of one of the two argument maps (empty context => no change)",
                   f"the context is also changed by `{outside[0][1] if outside and outside[0][0] == 'op' else (outside[0][0] if outside else '')}` independently of the argument maps")
-    rep.floor("C10-R3", 3)
+    # several formulae, several replacements: the context handed to the evaluation holds the validated sets of *every* formula
+    # (shared with C02-R4)
+    sub = type(rep)("C10c")
+    wildcards.check_context_presence(prog, sub, "X")
+    for i in sub.instances:
+        k_ = i.key.split(":", 1)[1] if ":" in i.key else i.key
+        if k_.endswith("/validated"):
+            (rep.ok if i.verdict == "ok" else rep.violation if i.verdict == "violation" else rep.unresolved)("C10-R3", "context/" + k_, i.where, i.detail)
+    rep.floor("C10-R3", 6)
 
 
 PASS_SAMPLE = ("%", "_", "a", "q", "Z", "E", "x", "0", "7")
